@@ -10,7 +10,7 @@ EXPLANATION = ("Static MIR rules: (R07.1) every construction of EncryptionConfig
                "which AesGcm256::encrypt was called after its last write, or a tag from renew_cipher/into_tag; the writer stack puts the "
                "encryption layer under the ENCRYPT test and only the header is written to the raw destination before; (R07.5) encrypt_parameters "
                "is set only from the Ok(Some(key)) payload of retrieve_key, load_persistent returns Ok only if it is set, and the key loop exits "
-               "early only on success; (R07.6) the recipient list only grows; (R07.7) the library never rewrites the caller's layer set: the field is stored only by its setters and library code calls set_layers only with `layers_enabled | X`; (R07.9) the header (one wrapped key per recipient) is deserialised under BINCODE_MAX_DESERIALIZE, the limit of the rest of the format; (R07.8) the key retrieve_key returns is the plaintext of one entry, handed out on the edge where that entry's tag compared equal (decrypt-site rule of R03.1). Decides provenance/shape, not the runtime bytes.")
+               "early only on success; (R07.6) the recipient list only grows; (R07.7) the library never rewrites the caller's layer set: the field is stored only by its setters and library code calls set_layers only with `layers_enabled | X`; (R07.9) the header (one wrapped key per recipient) is deserialised under BINCODE_MAX_DESERIALIZE, the limit of the rest of the format; (R07.10) store_key_for_multi_recipients iterates its whole `recipients` argument (no take / skip / filter / zip between the argument and the loop) and every visit pushes a wrapped key; (R07.8) the key retrieve_key returns is the plaintext of one entry, handed out on the edge where that entry's tag compared equal (decrypt-site rule of R03.1). Decides provenance/shape, not the runtime bytes.")
 TRUSTED = ['rustc MIR', 'rand / rand_chacha / getrandom (from_os_rng is OS-seeded)', 'x25519-dalek']
 ASSUMPTIONS = ['uniqueness of OS randomness across processes is a property of the OS generator', 'absence of plaintext in the output bytes is not decided (runtime)']
 
@@ -35,6 +35,97 @@ def rng_src(seen):
             return False
         return False
     return f
+
+
+LOSSLESS_ADAPTERS = ('iter', 'into_iter', 'iter_mut', 'map', 'enumerate', 'copied', 'cloned', 'by_ref', 'deref', 'as_slice', 'as_ref', 'borrow', 'rev', 'peekable',
+                     'inspect', 'map_while_ok', 'to_vec', 'clone', 'as_mut', 'deref_mut')
+
+
+def r07_10(prog, rep):
+    """"opened with the private key of any one recipient": store_key_for_multi_recipients wraps the key once for *every* element of its `recipients`
+    argument. The sequence it iterates is that argument through adapters that neither drop nor stop early (no take / skip / filter / step_by / zip ..),
+    and in the loop form no path from one element to the next misses the push (an error return aside)."""
+    sk = one_body(prog, rep, 'R07.10', 'mla', exact='crypto::ecc::store_key_for_multi_recipients')
+    if sk is None or sk.kind == 'Closure':
+        return
+    key = 'R07.10|%s|' % sk.nkey
+    rp = [l for l in range(1, sk.arg_count + 1) if 'PublicKey' in sk.lty(l)]
+    if len(rp) != 1:
+        rep.ob('R07.10', False, key + 'anchor', 'expected one recipients parameter, found %d' % len(rp), sk.loc())
+        return
+    rp = rp[0]
+
+    def chain_back(op):
+        """adapters between `op` and the recipients parameter; (ok, list of adapter names, offending)"""
+        names = []
+        if op.place is None:
+            return False, names, 'constant'
+        l = op.place[0]
+        for _ in range(64):
+            if l == rp:
+                return True, names, None
+            ds = sk.defs.get(l, [])
+            if len(ds) != 1:
+                return False, names, 'reaches %s, which has %d definitions' % (sk.lname(l), len(ds))
+            (dbb, dsi, dk, dobj) = ds[0]
+            if dk == 'call':
+                names.append(dobj.cmethod)
+                if dobj.cmethod not in LOSSLESS_ADAPTERS:
+                    return False, names, '`%s` may leave recipients out' % dobj.cmethod
+                if not dobj.args or dobj.args[0].place is None:
+                    return False, names, 'adapter without receiver'
+                l = dobj.args[0].place[0]
+                continue
+            if dk == 'assign' and dobj.rv is not None and dobj.rv.r in ('use', 'ref', 'cast', 'rawptr', 'copy_for_deref'):
+                pls = dobj.rv.src_places()
+                if len(pls) == 1:
+                    l = pls[0][0]
+                    continue
+            return False, names, 'reaches %s, which is not the recipients argument' % sk.lname(l)
+        return False, names, 'adapter chain too long'
+
+    nexts = [b for b in sk.calls() if b.term.cmethod == 'next' and b.term.ctrait == 'std::iter::Iterator' and not b.cleanup]
+    consumers = [b for b in sk.calls() if b.term.ctrait == 'std::iter::Iterator' and b.term.cmethod in ('collect', 'try_collect', 'for_each', 'try_for_each', 'fold', 'try_fold') and not b.cleanup]
+    pushes = [b for b in sk.calls() if b.term.cmethod in ('push', 'extend', 'extend_from_slice') and cnorm(b.term).startswith('std::vec::Vec') and not b.cleanup]
+    checked = 0
+    for nb in nexts:
+        # the iterator of this loop: `next(&mut iter)` with iter = into_iter(..)
+        ok, names, bad = chain_back(nb.term.args[0])
+        # only loops over the recipients count (a loop over something unrelated is not this rule's business) -- unless there is no other loop
+        if not ok and bad and bad.startswith('reaches') and len(nexts) > 1:
+            continue
+        checked += 1
+        rep.ob('R07.10', ok, key + 'every-recipient-visited', 'the loop visits recipients through %s' % (names or ['the slice itself']) if ok else
+               'the sequence of recipients that get a wrapped key is not the whole `recipients` argument (%s): an archive written for the recipients left out cannot be opened by them' % bad,
+               sk.loc(nb.idx))
+        si = switch_info(prog, sk, None) if False else None
+        # from the Some arm, the next visit of the loop head passes a push
+        loop = sk.loop_blocks()
+        in_loop_pushes = [p.idx for p in pushes if p.idx in loop]
+        succ = [x for x in sk.reachable(nb.idx, removed_blocks=in_loop_pushes) if x != nb.idx]
+        # is the head reachable again without a push?  (walk from the successors of the head)
+        again = False
+        seen = set()
+        todo = [x for x in sk.succs(nb.idx)]
+        while todo:
+            x = todo.pop()
+            if x in seen or x in in_loop_pushes:
+                continue
+            seen.add(x)
+            if x == nb.idx:
+                again = True
+                break
+            todo += list(sk.succs(x))
+        okp = bool(in_loop_pushes) and not again
+        rep.ob('R07.10', okp, key + 'every-visit-pushes', 'no path from one recipient to the next misses the push of its wrapped key' if okp else
+               'a path of the loop goes on to the next recipient without storing a wrapped key for the current one', sk.loc(nb.idx))
+    for cb in consumers:
+        ok, names, bad = chain_back(cb.term.args[0])
+        checked += 1
+        rep.ob('R07.10', ok, key + 'every-recipient-visited', '%s over recipients through %s' % (cb.term.cmethod, names) if ok else
+               'the sequence of recipients that get a wrapped key is not the whole `recipients` argument (%s): an archive written for the recipients left out cannot be opened by them' % bad,
+               sk.loc(cb.idx))
+    rep.floor('R07.10', checked, 1, 'iterations over the recipients in store_key_for_multi_recipients')
 
 
 def r07_7(prog, rep):
@@ -414,6 +505,9 @@ def run(prog, rep, tier):
 
     # ---------------- R07.7 the library never rewrites the caller's layer set
     r07_7(prog, rep)
+
+    # ---------------- R07.10 one wrapped key for every recipient
+    r07_10(prog, rep)
 
     # ---------------- R07.5 only a recipient key opens it
     lp = one_body(prog, rep, 'R07.5', 'mla', adt='layers::encrypt::EncryptionReaderConfig', name='load_persistent')
